@@ -48,6 +48,10 @@ def replay(ck, case):
         r = ruleref.judge(nat)
         print('violates:', r[0] if r else None)
         return 1 if r else 0
+    if c.get('kind') == 'stale-buffer':
+        o = nat.both([c['cmd']])[0]
+        print(o)
+        return 1 if any(x.startswith(('DIFF', 'panic')) for x in o) else 0
     z = zoneref.Zone(**{k: ([tuple(x) for x in v] if isinstance(v, list) else (tuple(v) if v else None)) for k, v in c['zone'].items()}) if 'zone' in c else None
     if z is None:
         print(nat.both([c['cmd']]))
